@@ -8,13 +8,17 @@
 (* that names dir itself or a directory above it; a blacklist entry written as a path).                *)
 (* Algorithm level: plz.FindAllBuildFiles as written (walk from dir, names are paths from the          *)
 (* repository root, the skip rules in the code's order, the blacklist test                              *)
-(* `dir == basename || strings.HasPrefix(name, dir)`), parameterised by the set R of repaired flaws;   *)
+(* `dir == basename || strings.HasPrefix(name, dir)` before the fix, `... name == dir ||               *)
+(* strings.HasPrefix(name, dir+"/")` after it), parameterised by the set R of repaired flaws;          *)
 (* and the second walker, query.containsPackage (shell completion), with the bounds C22 puts on it.    *)
 (* Two-level state space: initial states are the trees, their successors the cases (tree, dir, config).*)
 EXTENDS Naturals, Sequences, FiniteSets, TLC, Json, SequencesExt
 
 CONSTANTS Menu,         \* which set of cases is enumerated (see the end of the module)
-          Emit          \* print cases for the harness
+          Emit,         \* print cases for the harness
+          Repaired      \* the recorded flaws that are repaired in the code the model stands for: {"blPrefix"} since
+                        \* the `fix:` commit that made the blacklist test component-wise; {} is the code before it
+                        \* (MC_PackageWalk_known.cfg, expected to violate CodeModelConforms)
 
 VARIABLE c              \* [pkgs, dir, bl, ex, stage]
 vars == <<c>>
@@ -119,19 +123,24 @@ Verdict(k, must, may, a0, aF) ==
   ELSE IF \E p \in must \ a0 : Class(k, p, TRUE) = "unexplained" THEN "AllDeparturesExplained(missing)"
   ELSE IF (ComplMustTrue(k) /\ ~ComplAlgo(k)) \/ (ComplAlgo(k) /\ ~ComplMayTrue(k)) THEN "CompletionsConform"
   ELSE "ok"
+\* the model of the code as it stands (Repaired) implements the property; with Repaired = {} this is the
+\* recorded finding "C22 blacklist string-prefix" and TLC must produce the counterexample
+CodeModelConforms == c.stage = 1 => Must(c) \subseteq Algo(c, Repaired) /\ Algo(c, Repaired) \subseteq May(c)
 CaseOK ==
   c.stage = 1 =>
   LET must == Must(c)
       may == May(c)
-      a0 == Algo(c, {})
+      a0 == Algo(c, Repaired)
       aF == Algo(c, Flaws)
       v == Verdict(c, must, may, a0, aF)
   IN /\ v = "ok" \/ ~PrintT(<<"SPEC-INCONSISTENT", v>>)
      /\ Emit => PrintT(<<"CASE", ToJson(
           [pkgs |-> StrSet(c.pkgs), dir |-> Str(c.dir), bl |-> StrSet(c.bl), ex |-> StrSet(c.ex),
            must |-> StrSet(must), opt |-> StrSet(may \ must), algo |-> StrSet(a0),
-           diffs |-> SetToSeq({<<Str(p), "extra", Class(c, p, FALSE)>> : p \in a0 \ may}
-                              \cup {<<Str(p), "missing", Class(c, p, TRUE)>> : p \in must \ a0}),
+           \* departures of the model as it stands and of the model with no flaw repaired (so that a
+           \* regression of a fixed flaw is reported under that flaw's own signature)
+           diffs |-> SetToSeq({<<Str(p), "extra", Class(c, p, FALSE)>> : p \in (a0 \cup Algo(c, {})) \ may}
+                              \cup {<<Str(p), "missing", Class(c, p, TRUE)>> : p \in must \ (a0 \cap Algo(c, {}))}),
            forbid |-> SetToSeq({<<Str(p), Why(c, p)>> : p \in {p \in c.pkgs : Pre(c.dir, p)} \ may}),
            cmust |-> ComplMustTrue(c), cmay |-> ComplMayTrue(c), calgo |-> ComplAlgo(c)])>>)
 =============================================================================
